@@ -929,7 +929,13 @@ class MatrixOperator(Operator):
                 out[:] = self.matrix.dot(x)
             elif self.range.ndim == 1:
                 with writable_array(out) as out_arr:
-                    self.matrix.dot(x, out=out_arr)
+                    if out_arr.flags.c_contiguous:
+                        self.matrix.dot(x, out=out_arr)
+                    else:
+                        # `numpy.dot` only accepts a C-contiguous `out`;
+                        # elements wrapping strided arrays (e.g. the real
+                        # part of a complex element) are legal, though
+                        out_arr[:] = self.matrix.dot(x)
             else:
                 # Could use einsum to have out, but it's damn slow
                 # TODO: investigate speed issue
